@@ -158,7 +158,10 @@ func hist(ctx *common.Ctx, s *gen.Spec) (nontrivial bool, key string) {
 		}
 		for _, m := range b.Members {
 			nm++
-			ctx.Hist("member:" + []string{"anno", "type", "table", "enum", "alias", "union", "endpoint", "rest", "mixin", "event", "subscribe"}[m.Kind])
+			ctx.Hist("member:" + []string{"anno", "type", "table", "enum", "alias", "union", "endpoint", "rest", "mixin", "event", "subscribe", "collector"}[m.Kind])
+			for _, c := range m.Collector {
+				ctx.Hist("collector:" + []string{"call", "action", "http"}[c.Kind])
+			}
 			for _, it := range m.Items {
 				if it.Field != nil {
 					fld(*it.Field)
@@ -182,7 +185,7 @@ func hist(ctx *common.Ctx, s *gen.Spec) (nontrivial bool, key string) {
 	inSub := true
 	for _, b := range s.Blocks() {
 		for _, m := range b.Members {
-			if m.Kind == gen.MRest || m.Kind == gen.MSubscribe {
+			if m.Kind == gen.MRest || m.Kind == gen.MSubscribe || m.Kind == gen.MCollector {
 				inSub = false
 			}
 		}
@@ -266,12 +269,12 @@ func main() {
 		ctx.Finish()
 		return
 	}
-	nFull, nStaged, perFile := 150, 70, 15
+	nFull, nStaged, nColl, nTriples, nOrderRounds, perFile := 150, 70, 40, 8, 1, 15
 	if ctx.Thorough() {
-		nFull, nStaged, perFile = 3000, 900, 100
+		nFull, nStaged, nColl, nTriples, nOrderRounds, perFile = 3000, 900, 400, 200, 10, 100
 	}
 	if ctx.Search {
-		nFull, nStaged = nFull*3, nStaged*2
+		nFull, nStaged, nColl, nTriples = nFull*3, nStaged*2, nColl*3, nTriples*3
 	}
 	cs := ctx.NewCases("c02", header, "spec * option module", footer, perFile)
 	// stream 1: the shapes Appendix B requires, hand-built, canonical and randomised layout
@@ -283,9 +286,30 @@ func main() {
 	for i := 0; i < nStaged; i++ {
 		seed := ctx.Rng.Uint64()
 		k := gen.DefaultKnobs()
-		k.Level = 1 + i%7
+		k.Level = 1 + i%8
 		k.MaxApps, k.MaxFields = 3, 4
 		addCase(fmt.Sprintf("staged%d", k.Level), seed, gen.Generate(common.NewRng(seed), k), i%5 == 0)
+	}
+	// stream 2b: collector blocks (`.. * <- *:`) over statement trees planted with repeated calls
+	for i := 0; i < nColl; i++ {
+		seed := ctx.Rng.Uint64()
+		addCase("collector", seed, gen.GenerateCollector(common.NewRng(seed)), i%6 == 0)
+	}
+	// stream 2c: declaration order - every ordered pair of member kinds directly after one another inside one
+	// application (specification a = a b0 a b1 ...), plus random triples
+	for a := 0; a < gen.NOrderKinds*nOrderRounds; a++ {
+		a := a % gen.NOrderKinds
+		seed := ctx.Rng.Uint64()
+		sp, kinds := gen.GenerateOrder(common.NewRng(seed), a)
+		for i := 0; i+1 < len(kinds); i++ {
+			ctx.Hist("order:" + gen.OrderKindNames[kinds[i]] + ">" + gen.OrderKindNames[kinds[i+1]])
+		}
+		addCase("order", seed, sp, a%4 == 0)
+	}
+	for i := 0; i < nTriples; i++ {
+		seed := ctx.Rng.Uint64()
+		sp, _ := gen.GenerateOrderTriples(common.NewRng(seed), 6)
+		addCase("order3", seed, sp, false)
 	}
 	// stream 3: everything in scope
 	for i := 0; i < nFull; i++ {
@@ -302,8 +326,8 @@ func main() {
 		finishCase(ctx, cs, j)
 	}
 	cs.Close()
-	ctx.Res.Rule = "abstract specifications (apps incl. namespaced/escaped names, types/tables with every primitive x size/array spec x set/sequence x local/cross-app reference x optional, enums, aliases, unions, simple and REST endpoints with params/query/path variables, full statement language nested to depth 5, mixins, events, subscriptions, every attribute form) rendered with random legal surface choices; non-trivial = at least two members or two statements; distinct by (stream, case seed, size signature)"
-	b, _ := json.Marshal(map[string]int{"full": nFull, "staged": nStaged})
+	ctx.Res.Rule = "abstract specifications (apps incl. namespaced/escaped names, types/tables with every primitive x size/array spec x set/sequence x local/cross-app reference x optional, enums, aliases, unions, simple and REST endpoints with params/query/path variables, full statement language nested to depth 5, mixins, events, subscriptions, collector blocks (`.. * <- *:` with call / endpoint / VERB-path entries over statement trees planted with repeated calls), every ordered pair of member kinds directly after one another inside one application, every attribute form) rendered with random legal surface choices; non-trivial = at least two members or two statements; distinct by (stream, case seed, size signature)"
+	b, _ := json.Marshal(map[string]int{"full": nFull, "staged": nStaged, "collector": nColl, "order": gen.NOrderKinds * nOrderRounds, "order3": nTriples})
 	ctx.Res.Extra["streams"] = json.RawMessage(b)
 	ctx.Res.Extra["compile_wall_ms"] = time.Since(t0).Milliseconds()
 	ctx.Finish()
